@@ -153,7 +153,23 @@ func (cx *Ctx) runC07() {
 
 	// ---- determinism self-test of the simulator (small sample, every run)
 	cx.phase("C07: determinism sample")
-	st := cx.determinismSample(jobs, results, 30)
+	st, suspects := cx.determinismSample(jobs, results, 30)
+	for _, si := range suspects {
+		// the pooled worker's result differs from a fresh process: the result depends on process history.
+		// Make it reproducible: a synthesized history of the preceding specs followed by this one, in a fresh process.
+		var calls []spec.Call
+		for k := si - 12; k <= si; k++ {
+			if k >= 0 {
+				calls = append(calls, jobs[k].Calls[0])
+			}
+		}
+		if v, _, _, _ := cx.historyViolates(calls); v {
+			cx.c07ShrinkHistory(&spec.Job{Kind: "history", Calls: calls})
+		} else {
+			cx.trouble("Layout(%s; %s) returned a different result on a pooled worker than in a fresh process (process-history dependence), but no synthesized history reproduces it",
+				edgesText(jobs[si].Calls[0].Edges), optsText(jobs[si].Calls[0].Opts))
+		}
+	}
 
 	sites := map[string]any{}
 	for _, s := range sortedKeys(siteStats) {
@@ -373,7 +389,8 @@ func (cx *Ctx) c07Histories(r *rng, n int, gc genCfg) map[string]any {
 		}
 		jobs = append(jobs, &spec.Job{ID: i, Kind: "history", Calls: calls, Res: []spec.Resolution{{Adv: "identity"}}, Budgets: cx.Budgets})
 	}
-	hres := cx.sim.Run(jobs, nil)
+	// every history runs in a fresh worker process, so that the process history is exactly the history's calls
+	hres := cx.simFresh.Run(jobs, nil)
 	// references: each deterministic call alone, first call of a fresh process
 	var refJobs []*spec.Job
 	type refKey struct{ h, c int }
@@ -595,8 +612,12 @@ func (cx *Ctx) c07Real(r *rng, n, procs int, gc genCfg, simResults []JobResult) 
 		"note": "observation of the real runtime, not simulation: catches nondeterminism the seam inventory does not own and validates that the rewrites do not change behaviour"}
 }
 
-// determinismSample re-runs a sample of jobs on a different worker layout and compares trace hashes.
-func (cx *Ctx) determinismSample(jobs []*spec.Job, results []JobResult, n int) map[string]any {
+// determinismSample re-runs a sample of multi jobs in fresh worker processes under two different process layouts.
+// The two fresh executions must agree bit for bit (trace hash, ticks, result): a mismatch means the SIMULATOR is not
+// deterministic (trouble, exit 2). A fresh execution that disagrees with the main run - which used pooled workers with
+// an arbitrary earlier history - means the LIBRARY's result depends on what the process did before: the indices of such
+// jobs are returned for the caller to turn into history-dependence reports.
+func (cx *Ctx) determinismSample(jobs []*spec.Job, results []JobResult, n int) (map[string]any, []int) {
 	if n > len(jobs) {
 		n = len(jobs)
 	}
@@ -610,36 +631,51 @@ func (cx *Ctx) determinismSample(jobs []*spec.Job, results []JobResult, n int) m
 		sample = append(sample, jobs[i])
 		idx = append(idx, i)
 	}
-	mismatches := 0
-	compared := 0
-	for _, layout := range []struct {
-		n     int
-		procs string
-	}{{1, "1"}, {4, "4"}} {
+	run := func(workers int, procs string) []JobResult {
 		p := *cx.simFresh
-		p.N = layout.n
-		p.Env = []string{"GOMAXPROCS=" + layout.procs}
-		rs := p.Run(sample, nil)
-		for k, jr := range rs {
-			a := cx.multiOutcomes(cx.sim, results[idx[k]])
-			b := cx.multiOutcomes(cx.sim, jr)
-			if a == nil || b == nil || len(a) != len(b) {
-				continue
+		p.N = workers
+		p.Env = []string{"GOMAXPROCS=" + procs}
+		return p.Run(sample, nil)
+	}
+	ra := run(1, "1")
+	rb := run(4, "4")
+	same := func(a, b spec.Outcome) bool {
+		if a.Verdict == "FATAL" || b.Verdict == "FATAL" || (a.Verdict == "BUDGET" && a.Detail == "bytes") || (b.Verdict == "BUDGET" && b.Detail == "bytes") {
+			return true // process death and the live-heap meter are not tick-exact
+		}
+		return a.Trace == b.Trace && a.Hash == b.Hash && a.Ticks == b.Ticks
+	}
+	mismatches, compared, histDep := 0, 0, 0
+	var suspects []int
+	for k := range sample {
+		a := cx.multiOutcomes(cx.sim, ra[k])
+		b := cx.multiOutcomes(cx.sim, rb[k])
+		m := cx.multiOutcomes(cx.sim, results[idx[k]])
+		if a == nil || b == nil || len(a) != len(b) {
+			continue
+		}
+		ok := true
+		for i := range a {
+			compared++
+			if !same(a[i], b[i]) {
+				mismatches++
+				ok = false
+				fmt.Fprintf(os.Stderr, "determinism mismatch: job %d res %d: trace %s/%s ticks %d/%d hash %s/%s\n", idx[k], i, a[i].Trace, b[i].Trace, a[i].Ticks, b[i].Ticks, a[i].Hash, b[i].Hash)
 			}
+		}
+		if ok && m != nil && len(m) == len(a) {
 			for i := range a {
-				compared++
-				if a[i].Trace != b[i].Trace || a[i].Hash != b[i].Hash || a[i].Ticks != b[i].Ticks {
-					if a[i].Verdict == "FATAL" || b[i].Verdict == "FATAL" || (a[i].Verdict == "BUDGET" && a[i].Detail == "bytes") {
-						continue
-					}
-					mismatches++
-					fmt.Fprintf(os.Stderr, "determinism mismatch: job %d res %d: trace %s/%s ticks %d/%d hash %s/%s\n", idx[k], i, a[i].Trace, b[i].Trace, a[i].Ticks, b[i].Ticks, a[i].Hash, b[i].Hash)
+				if a[i].Verdict != "BUDGET" && m[i].Verdict != "BUDGET" && a[i].Verdict != "FATAL" && m[i].Verdict != "FATAL" && (a[i].Hash != m[i].Hash || a[i].Verdict != m[i].Verdict) {
+					histDep++
+					suspects = append(suspects, idx[k])
+					break
 				}
 			}
 		}
 	}
 	if mismatches > 0 {
-		cx.trouble("determinism self-test: %d of %d re-executions differ in trace hash / ticks / result", mismatches, compared)
+		cx.trouble("determinism self-test: %d of %d fresh re-executions differ from each other in trace hash / ticks / result", mismatches, compared)
 	}
-	return map[string]any{"reexecutions_compared": compared, "mismatches": mismatches, "layouts": "fresh process per job; 1 worker x GOMAXPROCS=1 and 4 workers x GOMAXPROCS=4, against the main run (16 workers)"}
+	return map[string]any{"reexecutions_compared": compared, "mismatches": mismatches, "pooled_vs_fresh_result_differences": histDep,
+		"layouts": "each sampled job twice in fresh processes: 1 worker x GOMAXPROCS=1 and 4 workers x GOMAXPROCS=4, compared with each other (simulator determinism) and with the main run on 16 pooled workers (process-history independence of the library)"}, suspects
 }
